@@ -175,6 +175,9 @@ class CFG:
             self._raise_from(n, raises)
         return n
 
+    def _lookup_error_anticipated(self) -> bool:
+        return any(isinstance(f, _TryBody) and any(may_match(frozenset({"KeyError"}), classes) for classes, _ in f.handlers) for f in self.frames)
+
     def _raise_from(self, n: Node, s: ExcSet) -> None:
         n.raises = n.raises | s
         for t in self._exc_targets(len(self.frames) - 1, s):
@@ -310,6 +313,15 @@ class CFG:
                 d = self._expr(c, d)
             return d
         if isinstance(e, (ast.Constant, ast.Name)):
+            return d
+        if isinstance(e, ast.Subscript) and isinstance(e.ctx, ast.Load):
+            d = self._expr(e.value, d)
+            d = self._expr(e.slice, d)
+            # an item lookup is a raising operation where the code itself anticipates it: inside a try whose handler
+            # can catch KeyError / IndexError (elsewhere lookups are treated as total, like attribute reads)
+            if self._lookup_error_anticipated():
+                n = self._emit("subscript", e, d, frozenset({"KeyError", "IndexError"}))
+                return [(n, "")]
             return d
         for child in ast.iter_child_nodes(e):
             if isinstance(child, (ast.expr, ast.keyword, ast.comprehension)):
